@@ -843,6 +843,34 @@ def ec_job(job):
         recs.append({"kind": "agree", "group": gname, "ver": ver[1], "cls": "library-vs-openssl",
                      "same": acc2 and acc3 and sec2 == sec3, "indep": acc and osec is not None and sec == osec,
                      "exc": exc or exc2 or exc3 or ("" if osec is not None else "openssl derive failed")})
+        # the shared X coordinate is a field element of fixed length: a scalar k for which X(k * Q) starts with a zero
+        # octet, found with the harness's own affine arithmetic (Q = the OpenSSL peer's point); both forms of the
+        # private value the library accepts (integer and SigningKey)
+        def _add(P1, P2):
+            if P1 is None:
+                return P2
+            (x1, y1), (x2, y2) = P1, P2
+            if x1 == x2 and (y1 + y2) % p == 0:
+                return None
+            lam = ((3 * x1 * x1 + a) * pow(2 * y1, -1, p)) % p if P1 == P2 else ((y2 - y1) * pow(x2 - x1, -1, p)) % p
+            x3 = (lam * lam - x1 - x2) % p
+            return x3, (lam * (x1 - x3) - y1) % p
+        acc_pt, kz = None, 0
+        for k in range(1, 4000):
+            acc_pt = _add(acc_pt, (X, Y))
+            if acc_pt is not None and acc_pt[0] < 256 ** (cl - 1):
+                kz = k
+                break
+        if kz:
+            import ecdsa
+            from tlslite.utils.ecc import getCurveByName
+            want = acc_pt[0].to_bytes(cl, "big")
+            sk = ecdsa.SigningKey.from_secret_exponent(kz, getCurveByName(GroupName.toRepr(gid)))
+            accA, secA, excA, _ = kex_exc(kex.calc_shared_key, sk, bytearray(point))
+            accB, secB, excB, _ = kex_exc(kex.calc_shared_key, kz, bytearray(point))
+            recs.append({"kind": "agree", "group": gname, "ver": ver[1], "cls": "shared-x-leading-zero",
+                         "same": bool(accA and accB and bytes(secA) == bytes(secB)),
+                         "indep": bool(accA and bytes(secA) == want), "exc": excA or excB})
         # share classes
         xb, yb = point[1:1 + cl], point[1 + cl:]
         ybad = ((Y + 1) % p).to_bytes(cl, "big")
